@@ -1788,6 +1788,16 @@ dt_dtdiff(dt_dtdurtyp_t tgttyp, struct dt_dt_s d1, struct dt_dt_s d2)
 	struct dt_dtdur_s res = {(dt_dtdurtyp_t)DT_DURUNK};
 	int64_t dt = 0;
 
+	if (tgttyp && (dt_durtyp_t)tgttyp < DT_NDURTYP) {
+		/* months, years and the like want a calendar date to count
+		 * from, a count of seconds hasn't got the slots */
+		if (d1.typ == DT_SEXY) {
+			d1 = dt_dtconv((dt_dttyp_t)DT_YMD, d1);
+		}
+		if (d2.typ == DT_SEXY) {
+			d2 = dt_dtconv((dt_dttyp_t)DT_YMD, d2);
+		}
+	}
 	if (!dt_sandwich_only_d_p(d1) && !dt_sandwich_only_d_p(d2)) {
 		/* do the time portion difference right away */
 		switch (tgttyp) {
